@@ -87,6 +87,8 @@ type Field struct {
 	JSON   string // explicit json_name option ("" = none)
 	Packed string // "", "true", "false": explicit packed option
 	Extra  string // a further field option, verbatim (e.g. "deprecated = true")
+	Opt    bool   // proto3 `optional` (explicit presence)
+	Oneof  string // member of the oneof of that name (consecutive members form one declaration)
 }
 
 // Enum declaration.
@@ -143,6 +145,8 @@ func (f *Field) text() string {
 		fmt.Fprintf(&sb, "map<%s, %s> ", KindName(f.MapKey), f.typeText())
 	case f.Rep:
 		fmt.Fprintf(&sb, "repeated %s ", f.typeText())
+	case f.Opt:
+		fmt.Fprintf(&sb, "optional %s ", f.typeText())
 	default:
 		fmt.Fprintf(&sb, "%s ", f.typeText())
 	}
@@ -180,8 +184,25 @@ func (m *Msg) text(ind string, sb *strings.Builder) {
 	for _, n := range m.Msgs {
 		n.text(ind+"  ", sb)
 	}
+	open := ""
 	for _, f := range m.Fields {
-		fmt.Fprintf(sb, "%s  %s\n", ind, f.text())
+		if f.Oneof != open {
+			if open != "" {
+				fmt.Fprintf(sb, "%s  }\n", ind)
+			}
+			if f.Oneof != "" {
+				fmt.Fprintf(sb, "%s  oneof %s {\n", ind, f.Oneof)
+			}
+			open = f.Oneof
+		}
+		if open != "" {
+			fmt.Fprintf(sb, "%s    %s\n", ind, f.text())
+		} else {
+			fmt.Fprintf(sb, "%s  %s\n", ind, f.text())
+		}
+	}
+	if open != "" {
+		fmt.Fprintf(sb, "%s  }\n", ind)
 	}
 	fmt.Fprintf(sb, "%s}\n", ind)
 }
@@ -269,6 +290,8 @@ func (f *Field) MapOf(key Kind) *Field {
 	return &g
 }
 func (f *Field) WithJSON(j string) *Field { g := *f; g.JSON = j; return &g }
+func (f *Field) Optional() *Field         { g := *f; g.Opt = true; return &g }
+func (f *Field) InOneof(n string) *Field  { g := *f; g.Oneof = n; return &g }
 // WithOption adds one more field option verbatim.
 func (f *Field) WithOption(o string) *Field {
 	g := *f
